@@ -153,6 +153,13 @@ class Own(Interp):
                 ctx.effects.append(e)
 
     # ------------------------------------------------------------------ values
+    def global_value(self, dotted, n, ctx):
+        k = self.prog.lookup(dotted)
+        if k[0] == "global" and not isinstance(k[2], ast.Constant):
+            # module-level mutable state: shared by every call
+            return OV([("G", dotted)])
+        return super().global_value(dotted, n, ctx)
+
     def h_const(self, n, ctx):
         return OV([IMM], kind="int" if isinstance(n.value, (int, bool)) else None)
 
